@@ -116,6 +116,103 @@ func (w *World) runPair(n int, c Cookie, r *rand.Rand) []Line {
 	return lines
 }
 
+// runTwinPair sends TWO sessions of the same user to the SAME upstream at the same time: two devices, each with
+// its own tokens; the authenticator confirms one pair of tokens and says the other was revoked, and answers
+// slowly so that the two checks overlap. Each request is an ordinary one-step cell: the revoked one must be
+// refused and its cookie cleared.
+func (w *World) runTwinPair(n int, c Cookie, r *rand.Rand) []Line {
+	now := time.Now()
+	host := hostGroup
+	pol := Policy{Group: true}
+	if r.Intn(2) == 0 {
+		host, pol = hostEmail, Policy{Email: true}
+	}
+	refreshing := c.Ref < 0
+	w.FA.Script(map[string]world.Answer{"profile": {Class: "ok", Groups: []string{allowedGroup}}})
+	w.FA.ScriptByToken(map[string]world.Answer{
+		"at-good": {Class: "ok"}, "rt-good": {Class: "ok", ExpiresIn: 3*1000 + 500, Token: "at-new"},
+		"at-gone": {Class: "s401"}, "rt-gone": {Class: "s401"},
+	})
+	w.FA.SetDelay(time.Duration(1+r.Intn(4)) * time.Millisecond)
+	defer func() { w.FA.SetDelay(0); w.FA.ScriptByToken(nil) }()
+	for _, b := range w.Backs {
+		b.Reset()
+	}
+	vals := make([]string, 2)
+	resps := make([]*world.Resp, 2)
+	tags := []string{"twin-good", "twin-gone"}
+	for i := range vals {
+		s := Session(c, host, now, r)
+		s.Email, s.User = "user@allowed.test", "user"
+		s.AccessToken, s.RefreshToken = []string{"at-good", "at-gone"}[i], []string{"rt-good", "rt-gone"}[i]
+		vals[i] = w.P.Seal(s)
+	}
+	var wg sync.WaitGroup
+	order := r.Intn(2)
+	stagger := time.Duration(r.Intn(3000)) * time.Microsecond
+	for k := 0; k < 2; k++ {
+		i := (k + order) % 2
+		wg.Add(1)
+		go func(i int) {
+			defer wg.Done()
+			req := world.NewReq("GET", host, "/"+tags[i], nil, []*http.Cookie{{Name: w.P.CookieName, Value: vals[i]}}, "")
+			resps[i] = world.Do(w.P.Handler, req)
+		}(i)
+		if k == 0 {
+			time.Sleep(stagger)
+		}
+	}
+	wg.Wait()
+	calls := map[string]bool{}
+	for _, cl := range w.FA.Calls() {
+		calls[cl.Endpoint] = true
+	}
+	var lines []Line
+	for i := 0; i < 2; i++ {
+		resp := resps[i]
+		o := Out{Status: resp.Status, Calls: []string{}}
+		for _, g := range w.Backs[host].Got() {
+			if g.Target == "/"+tags[i] {
+				o.Reached = true
+			}
+		}
+		for ep := range calls {
+			o.Calls = append(o.Calls, ep)
+		}
+		sort.Strings(o.Calls)
+		pre := c
+		pre.Email, pre.Tok = "match", "old"
+		after, touched := resp.CookieAfter(w.P.CookieName, vals[i])
+		switch {
+		case !touched:
+			o.After = pre
+		case after == "":
+			o.After = NoCookie
+		default:
+			if s, err := w.P.Open(after); err == nil {
+				o.After = Project(s, host, time.Now())
+			} else {
+				o.After = garbageCookie
+			}
+		}
+		a := Ans{Refresh: "na", Rexp: 3, Validate: "na", Profile: "na"}
+		verdict := []string{"ok", "s401"}[i]
+		if refreshing {
+			a.Refresh = verdict
+		} else {
+			a.Validate = verdict
+		}
+		if pol.Group && i == 0 {
+			a.Profile = "member"
+		}
+		q := Req{Kind: "page", Path: "normal"}
+		cc, pp := pre, pol
+		lines = append(lines, Line{Ev: "cell", Case: n + i, C: &cc, Pol: &pp, Req: &q, Ans: &a, Out: &o,
+			Conc: &Concrete{Host: host, Method: "GET", Target: "/" + tags[i], Note: "concurrent pair: two sessions of one user at one upstream, one of them revoked"}})
+	}
+	return lines
+}
+
 // RunPairs runs n concurrent pairs.
 func RunPairs(out string, seed int64, n, workers int) (*Summary, error) {
 	if n == 0 {
@@ -141,7 +238,11 @@ func RunPairs(out string, seed int64, n, workers int) (*Summary, error) {
 					c.Ref = -1
 					c.Val = []int{-1, 0, 1}[r.Intn(3)]
 				}
-				all[j] = w.runPair(20000000+2*j, c, r)
+				if j%2 == 0 {
+					all[j] = w.runPair(20000000+2*j, c, r)
+				} else {
+					all[j] = w.runTwinPair(20000000+2*j, c, r)
+				}
 			}
 		}(wk)
 	}
